@@ -236,7 +236,7 @@ func c15Sibling(c *Ctx) {
 			rep.Fail("impl_ne_spec", nil, cs, map[string]interface{}{"what": "the gateway answered without error although a sub-query failed"})
 			return
 		}
-	case <-time.After(3 * time.Second):
+	case <-patient(3 * time.Second):
 		rep.Fail("impl_ne_spec", nil, cs, map[string]interface{}{"what": "the gateway is still blocked 3 s after a sub-query failed: the slow sibling was not cancelled", "elapsed_ms": time.Since(t0).Milliseconds()})
 		return
 	}
@@ -249,7 +249,7 @@ func c15Sibling(c *Ctx) {
 				rep.Fail("impl_ne_spec", nil, cs, map[string]interface{}{"what": "the slow sibling ran to its own timeout instead of being cancelled"})
 				return
 			}
-		case <-time.After(3 * time.Second):
+		case <-patient(3 * time.Second):
 			rep.Fail("impl_ne_spec", nil, cs, map[string]interface{}{"what": "the slow sibling sub-query was started and never cancelled after the request ended"})
 			return
 		}
@@ -324,7 +324,7 @@ func c15ShortService(c *Ctx) {
 			if err == nil || strings.HasPrefix(err.Error(), "panic:") {
 				rep.Fail("impl_ne_spec", nil, cs, map[string]interface{}{"what": "the gateway did not answer a short result of a service with an error", "error": fmt.Sprint(err)})
 			}
-		case <-time.After(5 * time.Second):
+		case <-patient(5 * time.Second):
 			rep.Fail("impl_ne_spec", nil, cs, map[string]interface{}{"what": "the gateway did not return after a service answered with fewer objects than keys"})
 		}
 		InflightDone()
